@@ -15,6 +15,7 @@ import json
 import os
 import re
 import shutil
+import struct
 import subprocess
 
 from vf import build, coq, datadir
@@ -101,6 +102,11 @@ def gen_case(rng, pool, big=False, avoid_trunc=True):
     syms = [pool.one() for _ in range(nsym)]
     if nsym >= 2 and rng.random() < 0.3:
         syms[rng.randrange(nsym)] = syms[rng.randrange(nsym)]          # the same name at two addresses
+    argsym = None
+    if rng.random() < 0.4 and b"strfn" not in syms:
+        argsym = nsym
+        syms.append(b"strfn")
+        nsym += 1
     ntask = rng.choice([1, 1, 2, 2, 3])
     tasks = [(100, 100, None)]
     if ntask >= 2:
@@ -140,6 +146,21 @@ def gen_case(rng, pool, big=False, avoid_trunc=True):
             clock += rng.choice(steps[1:])
             recs.append((tid, False, st.pop(), clock))
     # a task without any record is dropped from the directory (its .dat would be empty)
+    # string arguments / return values on the calls of one plainly named function
+    strs = {}
+    if argsym is not None:
+        for i, r in enumerate(recs):
+            if r[2] == argsym and rng.random() < 0.8:
+                k = rng.randrange(6)
+                if k == 0:
+                    v = b"\xff\xff\xff\xff"                          # the NULL marker
+                elif k == 1:
+                    v = bytes(rng.choice(SPECIAL + [9, 10, 0x41]) for _ in range(rng.randrange(0, 12))) + b"\0"
+                elif k == 2:
+                    v = b"mid\0dle\0"                                # bytes after the terminator are ignored
+                else:
+                    v = pool.one() + rng.choice([b"", b"\t", b"\n", b'"', b"\\"]) + b"\0"
+                strs[i] = v
     used = {r[0] for r in recs}
     tasks = [t for t in tasks if t[0] in used]
     if tasks and tasks[0][0] != 100:
@@ -154,7 +175,9 @@ def gen_case(rng, pool, big=False, avoid_trunc=True):
     nent = sum(1 for r in recs if r[1])
     minlen = min(len(n) for n in syms)
     while avoid_trunc and nent >= 10 ** minlen:
-        syms = [n + b"_" if len(n) == minlen else n for n in syms]
+        syms = [n + b"_" if (len(n) == minlen and n != b"strfn") else n for n in syms]
+        if minlen >= 5:
+            break
         minlen += 1
     total = 0
     opened = {}
@@ -171,7 +194,8 @@ def gen_case(rng, pool, big=False, avoid_trunc=True):
         sample = max(sample, total // (10 ** min(minlen, 18) - 1) + 1)
     sample = min(sample, 999999999)
     exe = rng.choice(["prog", "prog", "a.out", "t-abc_1.2", "x"])
-    return {"tasks": tasks, "syms": syms, "recs": recs, "sample": max(1, sample), "exe": exe}
+    return {"tasks": tasks, "syms": syms, "recs": recs, "sample": max(1, sample), "exe": exe,
+            "argsym": argsym, "strs": strs}
 
 
 # ---------------------------------------------------------------------------------------------
@@ -185,9 +209,18 @@ def write_dir(case, d, cmdline=b"prog arg", with_cmdline=True, exename=None):
         shutil.rmtree(d)
     syms = [(0x1000 + 0x100 * i, 0x80, "T", n) for i, n in enumerate(case["syms"])]
     tasks = []
+    strs = case.get("strs") or {}
+
+    def payload(i):
+        v = strs.get(i)
+        if v is None:
+            return b""
+        b = struct.pack("<H", len(v)) + v
+        return b + b"\0" * (-len(b) % 4)
     for tid, pid, ppid in case["tasks"]:
-        rr = [{"t": t, "type": datadir.ENTRY if ent else datadir.EXIT, "depth": 0, "addr": BASE + syms[k][0]}
-              for (x, ent, k, t) in case["recs"] if x == tid]
+        rr = [{"t": t, "type": datadir.ENTRY if ent else datadir.EXIT, "depth": 0, "addr": BASE + syms[k][0],
+               "payload": payload(i)}
+              for i, (x, ent, k, t) in enumerate(case["recs"]) if x == tid]
         depth = 0
         for r in rr:                       # depth field as libmcount writes it
             if r["type"] == datadir.ENTRY:
@@ -198,8 +231,9 @@ def write_dir(case, d, cmdline=b"prog arg", with_cmdline=True, exename=None):
                 r["depth"] = depth
         tasks.append({"tid": tid, "pid": pid, "ppid": ppid, "recs": rr, "start": 200 + tid})
     desc = {"syms": syms, "base": BASE, "tasks": tasks, "cmdline": cmdline,
-            "exename": exename or ("/fake/" + case["exe"])}
-    datadir.write(desc, d, with_cmdline=with_cmdline)
+            "exename": exename or ("/fake/" + case["exe"]), "args": bool(strs)}
+    datadir.write(desc, d, with_cmdline=with_cmdline,
+                  argspec={"argspec": "strfn@arg1/s", "retspec": "strfn@retval/s"} if strs else None)
     return d
 
 
@@ -322,8 +356,14 @@ def parse_chrome(out):
             if not m:
                 raise ParseError("ts %r" % ts)
             tid = e.get("tid")
+            a = e.get("args")
+            if a is not None:
+                key = "arguments" if e["ph"] == "B" else "retval"
+                if list(a.keys()) != [key]:
+                    raise ParseError("args member %r" % (a,))
+                a = a[key].encode("utf-8")
             evs.append((e["ph"] == "B", int(e["pid"]), None if tid is None else int(tid),
-                        e["name"].encode("utf-8"), int(m.group(1)), int(m.group(2))))
+                        e["name"].encode("utf-8"), int(m.group(1)), int(m.group(2)), a))
         else:
             meta.append(e)
     return True, evs, meta, doc
@@ -360,6 +400,10 @@ def clines(ls):
     return "[" + "; ".join(cb(l) for l in ls) + "]"
 
 
+def copts(l):
+    return "[" + "; ".join("None" if x is None else "Some %s" % cb(x) for x in l) + "]"
+
+
 def crow(r):
     if r[3] is None:
         return "gr0 %d %s %d" % (r[0], cb(r[1]), r[2])
@@ -379,12 +423,14 @@ def crec(r):
 
 
 def ccase(c, p):
-    return ("mk_case [%s] %s %s\n  [%s]\n  %s\n  [%s]\n  %s\n  %s\n  %s\n  %s\n  [%s]\n  %s") % (
+    return ("mk_case [%s] %s %s\n  [%s]\n  %s\n  [%s]\n  %s\n  %s\n  %s\n  %s\n  [%s]\n  %s\n  %s\n  %s") % (
         "; ".join("tk %d %d" % (t[0], t[1]) for t in c["tasks"]), cb(c["exe"].encode()), clines(c["syms"]),
         "; ".join(crec(r) for r in c["recs"]), cn(c["sample"]),
         "; ".join(crow(r) for r in p["graph"]),
         clines(p["flame0"]), clines(p["flameS"]), clines(p["dot"]), clines(p["mermaid"]),
-        "; ".join(ccev(e) for e in p["chrome"]), "true" if p["json_ok"] else "false")
+        "; ".join(ccev(e) for e in p["chrome"]), "true" if p["json_ok"] else "false",
+        copts([(c.get("strs") or {}).get(i) for i in range(len(c["recs"]))]),
+        copts([e[6] for e in p["chrome"]]))
 
 
 PRE = """From Coq Require Import NArith List Bool Uint63.
@@ -411,21 +457,23 @@ def evaluate_cases(ctx, cases, parsed, name="cases", flame_fixed=False):
 
 def case_json(c, p=None):
     j = {"tasks": c["tasks"], "syms": [s.hex() for s in c["syms"]], "recs": c["recs"], "sample": c["sample"],
-         "exe": c["exe"]}
+         "exe": c["exe"], "strs": {str(i): v.hex() for i, v in (c.get("strs") or {}).items()}}
     if p is not None:
         j["impl"] = {"graph": [[r[0], r[1].hex(), r[2], r[3]] for r in p["graph"]],
                      "flame0": [l.decode("latin-1") for l in p["flame0"]],
                      "flameS": [l.decode("latin-1") for l in p["flameS"]],
                      "dot": [l.decode("latin-1") for l in p["dot"]],
                      "mermaid": [l.decode("latin-1") for l in p["mermaid"]],
-                     "chrome": [[e[0], e[1], e[2], e[3].decode("latin-1"), e[4], e[5]] for e in p["chrome"]],
+                     "chrome": [[e[0], e[1], e[2], e[3].decode("latin-1"), e[4], e[5],
+                                 None if e[6] is None else e[6].decode("latin-1")] for e in p["chrome"]],
                      "json_ok": p["json_ok"]}
     return j
 
 
 def case_from_json(j):
     return {"tasks": [tuple(t) for t in j["tasks"]], "syms": [bytes.fromhex(s) for s in j["syms"]],
-            "recs": [tuple(r) for r in j["recs"]], "sample": j["sample"], "exe": j["exe"]}
+            "recs": [tuple(r) for r in j["recs"]], "sample": j["sample"], "exe": j["exe"],
+            "strs": {int(i): bytes.fromhex(v) for i, v in (j.get("strs") or {}).items()}}
 
 
 def run_case(objdir, c, d, cmdline=b"prog arg", with_cmdline=True):
@@ -778,6 +826,15 @@ def tags_of(c):
         t.append("open-calls")
     if any(p[2] is not None for p in c["tasks"]):
         t.append("forked-task")
+    vals = list((c.get("strs") or {}).values())
+    if vals:
+        t.append("string-args")
+        blob = b"".join(vals)
+        for b, lab in ((0x22, "arg:quote"), (0x5c, "arg:backslash"), (9, "arg:tab"), (10, "arg:newline"), (0xff, "arg:0xff")):
+            if b in blob:
+                t.append(lab)
+        if b"\xff\xff\xff\xff" in vals:
+            t.append("arg:NULL")
     return t
 
 
